@@ -299,6 +299,7 @@ func (sc *Scenario) exec(prefix []int, expect []string, yieldOnRelease bool) sch
 		o.mm, o.obs = sc.Run(sc, s)
 	})
 	vsync.YieldOnRelease = false
+	ConformanceCheck()
 	if o.res.Aborted != "" && o.res.Aborted != "diverged" {
 		o.mm = &Mismatch{Op: "-", Where: "process", Want: "runs to completion", Got: o.res.Aborted + ": " + o.res.Msg, Class: "process-" + o.res.Aborted}
 		o.obs += "|" + o.res.Aborted
